@@ -1,16 +1,24 @@
 (* C01, the stretch goal of DESIGN.md section 5: FAITHFUL RENDERING AS ONE THEOREM OVER A GRAMMAR.
 
    Spec/MiniGo.v defines a subset of Go's abstract syntax -
-     types        named, *T, []T, map[K]V
+     types        named, *T, []T, map[K]V, [n]T, chan T / <-chan T / chan<- T, func types (with a
+                  variadic final parameter ...T and 0, 1 or several results), struct types with
+                  fields and conventional tags (Tag(map); no embedded fields), interface types
+                  with method signatures
      expressions  identifier, int / string / bool literal, nil, unary and binary operators,
                   call (0..n arguments, optional final ...), index, 2- and 3-index slices with
-                  optional bounds, selector, parentheses, composite literal, func literal
+                  optional bounds, selector, parentheses, composite literal (elements without
+                  keys: EComp; every element keyed: EKeyed, built with a Dict), func literal,
+                  type assertion x.(T)
      statements   expression, assignment / define / op-assign, ++ --, return (also bare),
                   if [init;] cond {} [else ..], for with every subset of the three clauses,
                   for cond {}, for {}, for k[, v] := range x {}, switch [init;] [tag] with case
                   and default clauses (empty bodies included), block, break / continue [label],
-                  go / defer call, var x [T] [= e]
-     declarations func, var ( .. ), const ( .. ), type
+                  go / defer call, var x [T] [= e], labeled statement, goto, fallthrough,
+                  send statement, select with send / receive / default clauses, type switch
+                  [init;] [b :=] x.(type) with type-list and default clauses
+     declarations func (0, 1 or several results, variadic final parameter), method (with a
+                  receiver), var ( .. ), const ( .. ), type
    - together with [build] (the tree the documented DSL elements produce, DESIGN.md Appendix D,
    groups and keyword tokens taken from the GENERATED tables) and [canon] (cty cexpr cstmt cdecl
    cfile: a direct printer of the text expected before gofmt, which never mentions the
@@ -27,15 +35,31 @@
    uses exist and carry the delimiters [canon] assumes; it is a closed boolean and holds of the
    current table (C01_canon_tables_ok, by computation).
 
+   KEYED COMPOSITE LITERALS (EKeyed t pairs = `T{k1: v1, k2: v2}`, built as
+   T.Values(Dict{k1: v1, k2: v2})).  A Dict is a Go map: jennifer sorts the pairs by the TEXT
+   their keys render to (sort.SliceStable) and writes nothing for no pair, `k:v` for one, and
+   a newline followed by `k:v,` and a newline for each of several.  So the rendered program is
+   the source program UP TO THE ORDER OF KEYED ELEMENTS: [canon] prints the elements sorted by
+   the canonical text of their keys ([keyed_sorted]; C01_canon_keyed_order says that this is
+   a permutation of the elements and that a literal already in that order is printed as it
+   stands).  In the model a Dict is the list of its pairs in iteration order, [build] lists
+   them in source order, and the sort is stable: render (build a) = canon a needs NO extra
+   hypothesis - the hypothesis of the Dict theorems of C16 (every key and value renders without
+   registering a package: `settled`) holds automatically, because nothing in MiniGo is
+   package-qualified, and no pair is null.  What the real map adds is an arbitrary iteration
+   order; the text does not depend on it when the key texts of each literal are pairwise
+   distinct - the boolean [keys_ok] - which is C01_canon_keyed_any_map_order (and it IS needed:
+   C01_canon_keys_ok_needed).
+
    WHAT IS NOT PROVED.  That [canon a], read by Go's scanner and parser, gives back the tree
    [a], and that gofmt then only changes layout: that is Go's grammar (go/parser, go/printer),
    not jennifer.  It is decided on every case by the harness oracle (harness/props/c01.go) on
    the files of GOROOT and on generated programs.  Nor does the grammar here cover all of Go
-   (no struct / interface / chan / func types, labels, select, type switches, generics,
-   qualified identifiers, floats, runes): for those the general emit theorems of Props/C01.v
+   (no embedded fields, no free-form struct tags, no embedded interfaces or type unions, no generics, qualified identifiers, floats, runes): for those the general emit theorems of Props/C01.v
    and the differential runs stand. *)
 From Jen Require Import Base.Bytes Base.Num Model.Code Model.Naming Model.Render Model.FileRender.
-From Jen Require Import Spec.MiniGo Proofs.CanonProofs.
+From Jen Require Import Base.Sort Spec.MiniGo Proofs.CanonProofs.
+From Coq Require Import Permutation.
 
 (* The rows [build] takes from the generated tables are there and are what [canon] assumes
    (Call ( , ) ... Block { } multi-line; func, else, default ... as keyword tokens). *)
@@ -81,6 +105,44 @@ Theorem C01_canon_case_block : forall cfg, tables_ok = true -> forall (body : li
     Ok (t, S "default: " ++ lines (map cstmt body)).
 Proof. exact block_braces_rule. Qed.
 
+(* ------------------------------------------------------------------ keyed elements *)
+(* The order in which the keyed elements of a literal are written: sorted by the canonical text
+   of the key, bytewise; elements whose keys have the same text keep their relative order. *)
+Theorem C01_canon_keyed_sorted_def : forall pairs,
+  keyed_sorted pairs = isort_by (fun kv => cexpr (fst kv)) pairs.
+Proof. intros; reflexivity. Qed.
+
+(* The text of a keyed literal is the text of the literal with its elements in that order, which
+   is a permutation of the elements: nothing is lost, nothing is written twice. *)
+Theorem C01_canon_keyed_order : forall t pairs,
+  cexpr (EKeyed t pairs) = cexpr (EKeyed t (keyed_sorted pairs)) /\ Permutation (keyed_sorted pairs) pairs.
+Proof. exact keyed_canon_sorted. Qed.
+
+(* A literal whose elements are in that order already is written as it stands: the type, ` {`,
+   the elements ([keyed_body]: nothing / `k:v` / a newline, then `k:v,` and a newline each), `}`. *)
+Theorem C01_canon_keyed_in_order : forall t pairs, keyed_sorted pairs = pairs ->
+  cexpr (EKeyed t pairs) = cty t ++ S " {" ++ keyed_body (map ctext_pair pairs) ++ S "}".
+Proof. exact keyed_canon_in_order. Qed.
+
+Theorem C01_canon_ctext_pair_def : forall kv, ctext_pair kv = (cexpr (fst kv), cexpr (snd kv)).
+Proof. intros; reflexivity. Qed.
+
+(* With pairwise distinct key texts ([keys_ok]) the order in which the pairs are listed - in Go:
+   the order in which the map happens to be iterated - does not change the text. *)
+Theorem C01_canon_keyed_any_map_order : forall t pairs pairs',
+  keys_ok pairs = true -> Permutation pairs pairs' -> cexpr (EKeyed t pairs) = cexpr (EKeyed t pairs').
+Proof. exact keyed_canon_perm. Qed.
+
+(* [keys_ok] is needed for that: two different keys with the same text (two calls `f ()`) are
+   both written, in iteration order. *)
+Example C01_canon_keys_ok_needed :
+  let k := ECall (EId (S "f")) [] false in
+  let p1 := [(k, EInt 1); (k, EInt 2)] in
+  keys_ok p1 = false /\ Permutation p1 (rev p1) /\
+  cexpr (EKeyed (TName (S "T")) p1) = S "T {" ++ nl ++ S "f ():1," ++ nl ++ S "f ():2," ++ nl ++ S "}" /\
+  cexpr (EKeyed (TName (S "T")) (rev p1)) = S "T {" ++ nl ++ S "f ():2," ++ nl ++ S "f ():1," ++ nl ++ S "}".
+Proof. cbv zeta. split; [reflexivity|]. split; [apply perm_swap|]. split; vm_compute; reflexivity. Qed.
+
 (* ------------------------------------------------------------------ examples *)
 (* (by computation on the model, independent of the proofs: the shapes the README's examples
    lack) *)
@@ -100,7 +162,7 @@ Definition tint := TName (S "int").
 
 (* canon of a small function, next to the text written out *)
 Definition ex_max : decl :=
-  DFunc (S "max") [(S "a", tint); (S "b", tint)] (Some tint)
+  DFunc (S "max") [(S "a", tint); (S "b", tint)] [tint]
     [SIf None (EBin va BGt vb) [SReturn [va]] None; SReturn [vb]].
 
 Example C01_canon_example_max :
@@ -183,11 +245,52 @@ Example C01_canon_example_arity :
   renders_to (build_stmt (SAssign va [vb; vi] AAssign (EInt 1) [EInt 2; EStr (S "x\")])) (S "a,b,i = 1,2,""x\\""").
 Proof. vm_compute. repeat split; reflexivity. Qed.
 
+(* keyed literals: no element, one element (inline), several (one per line, sorted by key text:
+   upper case before lower case, a quoted key before both), nested in a call and in a value *)
+Definition ex_keyed : expr :=
+  EKeyed (TName (S "T"))
+    [(EId (S "b"), EInt 2); (EId (S "a"), EInt 1);
+     (EId (S "B"), ECall (EId (S "f")) [EKeyed (TName (S "T")) [(EId (S "k"), EStr (S "v"))]] false);
+     (EStr (S "s"), EKeyed (TName (S "T")) [])].
+
+Example C01_canon_example_keyed :
+  cexpr ex_keyed = S "T {
+""s"":T {},
+B:f (T {k:""v""}),
+a:1,
+b:2,
+}" /\ renders_to (build_expr ex_keyed) (cexpr ex_keyed) /\
+  renders_to (build_expr (EKeyed (TMap (TName (S "string")) tint) [(EStr (S "x"), EInt 1)])) (S "map[string] int {""x"":1}") /\
+  renders_to (build_expr (EKeyed (TSlice tint) [(EInt 10, va); (EInt 9, vb)])) (S "[] int {
+10:a,
+9:b,
+}").
+Proof. vm_compute. repeat split; reflexivity. Qed.
+
+(* the types and statements added later: struct (empty, nested), interface, func type with a
+   variadic parameter and two results, array, the three channel directions; a method with a
+   receiver; labeled statement, goto, fallthrough, send, type assertion *)
+Example C01_canon_example_types :
+  renders_to (build_type (TStruct [])) (S "struct{}") /\
+  renders_to (build_type (TStruct [(S "a", tint, []); (S "b", TStruct [(S "c", TArray 3 tint, [])], [])]))
+             (S "struct{" ++ nl ++ S "a int" ++ nl ++ S "b struct{" ++ nl ++ S "c [3] int" ++ nl ++ S "}" ++ nl ++ S "}") /\
+  (* tags: the pairs sorted by key, between backquotes - or quoted when the body has a backquote *)
+  renders_to (build_type (TStruct [(S "a", tint, [(S "xml", S "b"); (S "json", S "a,omitempty")]); (S "b", tint, [(S "k", S "`")])]))
+             (S "struct{" ++ nl ++ S "a int `json:""a,omitempty"" xml:""b""`" ++ nl ++ S "b int ""k:\""`\""""" ++ nl ++ S "}") /\
+  renders_to (build_type (TIface [(S "M", ([(S "x", tint)], [tint; TName (S "error")])); (S "N", ([], []))]))
+             (S "interface{" ++ nl ++ S "M (x int) (int,error)" ++ nl ++ S "N ()" ++ nl ++ S "}") /\
+  renders_to (build_type (TFunc [(S "a", tint); (S "r", TEllipsis tint)] [tint])) (S "func (a int,r ... int) int") /\
+  renders_to (build_type (TChan CRecv (TChan CSend (TChan CBoth tint)))) (S "<- chan chan <- chan int") /\
+  renders_to (build_decl (DMethod (S "r", TPtr (TName (S "T"))) (S "m") [] [] [SFallthrough; SGoto (S "L")]))
+             (S "func (r * T) m () {" ++ nl ++ S "fallthrough" ++ nl ++ S "goto L" ++ nl ++ S "}") /\
+  renders_to (build_stmt (SLabeled (S "L") (SSend va (EAssert vb (TPtr tint))))) (S "L : a <- b .(* int)").
+Proof. vm_compute. repeat split; reflexivity. Qed.
+
 (* nesting depth 6: parentheses; calls; func literals whose bodies hold the next one; blocks *)
 Fixpoint ex_nest (f : expr -> expr) (n : nat) (x : expr) : expr :=
   match n with O => x | Datatypes.S n' => f (ex_nest f n' x) end.
 Definition ex_deep_func : expr :=
-  ex_nest (fun x => EFunc [] None [SIf None (EBool true) [SExpr (ECall x [] false)] (Some (SBlock []))]) 6 va.
+  ex_nest (fun x => EFunc [] [] [SIf None (EBool true) [SExpr (ECall x [] false)] (Some (SBlock []))]) 6 va.
 
 Example C01_canon_example_depth :
   renders_to (build_expr (ex_nest EParen 6 va)) (S "((((((a))))))") /\
@@ -225,10 +328,19 @@ Proof. vm_compute. split; reflexivity. Qed.
 
 (* the deep func literal of C01_canon_example_depth, for the eye: its two outermost levels *)
 Example C01_canon_example_func_literal :
-  let f1 := EFunc [] None [SIf None (EBool true) [SExpr (ECall va [] false)] (Some (SBlock []))] in
+  let f1 := EFunc [] [] [SIf None (EBool true) [SExpr (ECall va [] false)] (Some (SBlock []))] in
   cexpr f1 = S "func () {
 if true {
 a ()
 } else {}
 }".
 Proof. vm_compute. reflexivity. Qed.
+
+Print Assumptions C01_canon_type.
+Print Assumptions C01_canon_expr.
+Print Assumptions C01_canon_stmt.
+Print Assumptions C01_canon_decl.
+Print Assumptions C01_canon_file.
+Print Assumptions C01_canon_keyed_order.
+Print Assumptions C01_canon_keyed_in_order.
+Print Assumptions C01_canon_keyed_any_map_order.
